@@ -124,7 +124,7 @@ func runPermits(o *Out, r *rand.Rand, thorough bool, _ []string) {
 		}
 		return &portalwire.OfferRequest{Kind: portalwire.TransientOfferRequestKind, Request: &portalwire.TransientOfferRequest{Contents: es}}
 	}
-	kinds := []string{"empty", "wrongcode", "undecodable", "wrongcount_declined", "wrongcount_accepting", "shortcount_accepting", "all_declined", "truncated"}
+	kinds := []string{"empty", "wrongcode", "undecodable", "wrongcount_declined", "wrongcount_accepting", "shortcount_accepting", "all_declined", "truncated", "accepted_in_progress"}
 	reps := 2
 	if thorough {
 		reps = 20
@@ -169,6 +169,10 @@ func runPermits(o *Out, r *rand.Rand, thorough bool, _ []string) {
 				case "truncated":
 					full := acceptBytes(version, make([]uint8, nKeys), 5)
 					resp = full[:len(full)-1-r.Intn(2)]
+				case "accepted_in_progress":
+					// a well-formed ACCEPT accepting every key; the target never answers the uTP dial, so the transfer
+					// is in progress (until the 15 s connect timeout) when the slots are counted
+					resp = acceptBytes(version, make([]uint8, nKeys), 4242)
 				}
 				permit, ok := a.p.Utp.GetOutboundPermit()
 				if !ok {
@@ -176,7 +180,13 @@ func runPermits(o *Out, r *rand.Rand, thorough bool, _ []string) {
 					continue
 				}
 				_, err := a.p.VerifProcessOffer(target, resp, req, permit)
-				free := waitFree(a, false, limit, 300*time.Millisecond)
+				var free int
+				if kind == "accepted_in_progress" {
+					time.Sleep(30 * time.Millisecond)
+					free = freeSlots(a, false, limit) // the slot must still be held by the transfer
+				} else {
+					free = waitFree(a, false, limit, 300*time.Millisecond)
+				}
 				o.Case(fmt.Sprintf("procoffer kind=%s v=%d limit=%d", kind, version, limit), fmt.Sprintf("%s free=%d", errStr(err), free))
 				if free != limit { // do not let one leak hide the next
 					a.stop()
